@@ -14,6 +14,14 @@
 // bracket-aware scanner; it is never parsed as a Go file. Whatever is not
 // recognised becomes an `unknown: ...` entry (tmplStructUnknown, or a mark
 // whose name starts with `unknown`).
+//
+// Equivalent spellings: a {{define}} whose text contains a func literal, a
+// `defer`, a `go` or a `recover()` is EXPANDED where it is included (tdef), so a
+// mechanism factored into a shared define is seen in every closure using it, and
+// such a define is not reported a second time on its own.  The two branches of an
+// {{if}}..{{else}} are alternatives: the token after the first is the one after
+// the second (succ / pred), and a mark present in both is present (mergeComplementary).
+// A loop-variable copy may be spelled `x := x` or pairwise `x, y := x, y`.
 package main
 
 import (
@@ -79,15 +87,52 @@ type structFacts struct {
 type tseg struct {
 	start  int // offset in the flattened text
 	text   string
-	src    int // offset in the template source (text nodes), -1 for placeholders
+	src    int    // offset in the template source (text nodes), -1 for placeholders
+	srcOf  string // the template source `src` points into (an inlined {{define}} may live in another file)
 	guards []string
 	node   parse.Node
+}
+
+// tdef is one template tree of a template set, before flattening.
+type tdef struct {
+	file, dir, name string // display name of the file, set directory, template name
+	isDefine        bool   // a {{define}}, not the template of a file
+	tree            *parse.Tree
+	src             string
+	// structural: the define's own text contains a func literal, a `defer`, a `go`
+	// or a `recover()`, directly or through a define it includes.  Such a define is
+	// EXPANDED IN PLACE wherever it is included, so that a mechanism (the recover
+	// defer of a job closure, ...) is seen in the closure it protects whether it is
+	// spelled there or factored into a shared define.
+	structural bool
+	used       bool // expanded at least once
+	includes   []string
+}
+
+type tdefSet map[string]map[string]*tdef // dir -> template name -> tree
+
+func (s tdefSet) resolve(dir, name string) *tdef {
+	if t := s[dir][name]; t != nil {
+		return t
+	}
+	if dir != "modifier" {
+		return s["shared"][name]
+	}
+	return nil
 }
 
 type tbranch struct {
 	guard      string
 	start, end int // byte range in the flattened text
 }
+
+// altPair: the two alternatives of one {{if}} / {{with}} / {{range}} ... {{else}},
+// as byte ranges of the flattened text [thenStart, elseStart) and [elseStart,
+// elseEnd).  Both are present in the flattened text, one after the other; in
+// any real output at most one is, so the token FOLLOWING the first alternative
+// is the one after the second, and the token PRECEDING the second is the one
+// before the first (see succ / pred).
+type altPair struct{ thenStart, elseStart, elseEnd int }
 
 type ttok struct {
 	off    int
@@ -117,10 +162,17 @@ type flatTree struct {
 	name string // template name
 	src  string
 
+	def    *tdef   // the tree this was flattened from
+	defs   tdefSet // when set, structural defines are expanded in place
+	curSrc string  // source of the tree being walked (changes inside an expanded define)
+	inl    []string
+
 	flat     []byte
 	segs     []tseg
 	segOf    []int32
 	branches []tbranch
+	alts     []altPair
+	altToks  [][4]int // per altPair: first/last token of the first alternative, first/last of the second (-1: none)
 	ph       map[string]parse.Node
 	nph      int
 
@@ -142,7 +194,7 @@ func (ft *flatTree) emit(text string, src int, guards []string, node parse.Node)
 	if text == "" {
 		return
 	}
-	ft.segs = append(ft.segs, tseg{start: len(ft.flat), text: text, src: src, guards: guards, node: node})
+	ft.segs = append(ft.segs, tseg{start: len(ft.flat), text: text, src: src, srcOf: ft.curSrc, guards: guards, node: node})
 	idx := int32(len(ft.segs) - 1)
 	ft.flat = append(ft.flat, text...)
 	for k := 0; k < len(text); k++ {
@@ -172,6 +224,23 @@ func (ft *flatTree) branch(guards []string, g string, l *parse.ListNode) {
 	ft.branches = append(ft.branches, tbranch{guard: strings.Join(with(guards, g), "; "), start: start, end: len(ft.flat)})
 }
 
+// alternatives flattens both branches of a conditional.  When both exist, a
+// space keeps the last token of the first from running into the first token of
+// the second (`{{if a -}} x := x {{- else -}} y := y {{- end}}` is never `x := xy
+// := y` in any output), and the pair is recorded.
+func (ft *flatTree) alternatives(guards []string, g1 string, l1 *parse.ListNode, g2 string, l2 *parse.ListNode) {
+	thenStart := len(ft.flat)
+	ft.branch(guards, g1, l1)
+	if l1 == nil || l2 == nil {
+		ft.branch(guards, g2, l2)
+		return
+	}
+	ft.emit(" ", -1, guards, nil)
+	elseStart := len(ft.flat)
+	ft.branch(guards, g2, l2)
+	ft.alts = append(ft.alts, altPair{thenStart: thenStart, elseStart: elseStart, elseEnd: len(ft.flat)})
+}
+
 func pipeText(p *parse.PipeNode) string {
 	if p == nil {
 		return ""
@@ -191,7 +260,7 @@ func (ft *flatTree) walk(n parse.Node, guards []string) {
 		}
 	case *parse.TextNode:
 		pos := int(x.Pos)
-		if pos < 0 || pos+len(x.Text) > len(ft.src) || ft.src[pos:pos+len(x.Text)] != string(x.Text) {
+		if pos < 0 || pos+len(x.Text) > len(ft.curSrc) || ft.curSrc[pos:pos+len(x.Text)] != string(x.Text) {
 			ft.unk("text node at offset %d does not match the template source", pos)
 			pos = -1
 		}
@@ -202,24 +271,54 @@ func (ft *flatTree) walk(n parse.Node, guards []string) {
 		}
 		ft.placeholder("A", guards, x)
 	case *parse.TemplateNode:
+		if d := ft.expandable(x.Name); d != nil {
+			// a structural define: its text stands here (see tdef.structural)
+			d.used = true
+			saved := ft.curSrc
+			ft.curSrc = d.src
+			ft.inl = append(ft.inl, x.Name)
+			ft.walk(d.tree.Root, guards)
+			ft.inl = ft.inl[:len(ft.inl)-1]
+			ft.curSrc = saved
+			return
+		}
 		ft.placeholder("T", guards, x)
 	case *parse.IfNode:
 		p := pipeText(x.Pipe)
-		ft.branch(guards, "if "+p, x.List)
-		ft.branch(guards, "unless "+p, x.ElseList)
+		ft.alternatives(guards, "if "+p, x.List, "unless "+p, x.ElseList)
 	case *parse.WithNode:
 		p := pipeText(x.Pipe)
-		ft.branch(guards, "with "+p, x.List)
-		ft.branch(guards, "without "+p, x.ElseList)
+		ft.alternatives(guards, "with "+p, x.List, "without "+p, x.ElseList)
 	case *parse.RangeNode:
 		p := pipeText(x.Pipe)
-		ft.branch(guards, "range "+p, x.List)
-		ft.branch(guards, "norange "+p, x.ElseList)
+		ft.alternatives(guards, "range "+p, x.List, "norange "+p, x.ElseList)
 	case *parse.CommentNode:
 	default:
 		// {{break}}, {{continue}} and anything newer change what is emitted
 		ft.unk("template node %T not handled: %s", n, n.String())
 	}
+}
+
+// expandable: the define an include of `name` is replaced by, nil when the
+// include stays a placeholder (not a define, not structural, not resolved, or
+// already being expanded: recursion).
+func (ft *flatTree) expandable(name string) *tdef {
+	if ft.defs == nil {
+		return nil
+	}
+	d := ft.defs.resolve(ft.dir, name)
+	if d == nil || !d.isDefine || !d.structural || d.tree == nil || d.tree.Root == nil || len(ft.inl) >= 8 {
+		return nil
+	}
+	for _, n := range ft.inl {
+		if n == name {
+			return nil
+		}
+	}
+	if ft.def == d {
+		return nil
+	}
+	return d
 }
 
 var rePlaceholder = regexp.MustCompile(`_[AT][0-9]+_`)
@@ -341,6 +440,25 @@ func (ft *flatTree) tokenize() {
 		off := f.Offset(pos)
 		ft.toks = append(ft.toks, ttok{off: off, tok: tok, lit: lit, guards: ft.guardsAt(off), auto: tok == token.SEMICOLON && lit != ";"})
 	}
+	// tokens of the alternatives
+	for _, a := range ft.alts {
+		r := [4]int{-1, -1, -1, -1}
+		for i, t := range ft.toks {
+			switch {
+			case t.off >= a.thenStart && t.off < a.elseStart:
+				if r[0] < 0 {
+					r[0] = i
+				}
+				r[1] = i
+			case t.off >= a.elseStart && t.off < a.elseEnd:
+				if r[2] < 0 {
+					r[2] = i
+				}
+				r[3] = i
+			}
+		}
+		ft.altToks = append(ft.altToks, r)
+	}
 	// brackets
 	ft.match = make([]int, len(ft.toks))
 	for i := range ft.match {
@@ -446,6 +564,36 @@ func (ft *flatTree) is(i int, tok token.Token) bool {
 
 func (ft *flatTree) isIdent(i int, name string) bool {
 	return ft.is(i, token.IDENT) && ft.toks[i].lit == name
+}
+
+// succ is the token that follows token i in an output: leaving the first
+// alternative of a conditional skips the second.
+func (ft *flatTree) succ(i int) int {
+	j := i + 1
+	for again := true; again; {
+		again = false
+		for _, r := range ft.altToks {
+			if r[0] >= 0 && r[2] >= 0 && r[0] <= i && i <= r[1] && j == r[2] {
+				j, again = r[3]+1, true
+			}
+		}
+	}
+	return j
+}
+
+// pred is the token that precedes token i in an output: entering the second
+// alternative of a conditional skips the first.
+func (ft *flatTree) pred(i int) int {
+	j := i - 1
+	for again := true; again; {
+		again = false
+		for _, r := range ft.altToks {
+			if r[0] >= 0 && r[2] >= 0 && r[2] <= i && i <= r[3] && j == r[1] {
+				j, again = r[0]-1, true
+			}
+		}
+	}
+	return j
 }
 
 // next / prev skip automatically inserted semicolons.
@@ -586,10 +734,11 @@ func (ft *flatTree) litBase(l *tlit) []string {
 // ---------------------------------------------------------------------------
 
 func (ft *flatTree) stmtStart(i int) bool {
-	if i == 0 {
+	p := ft.pred(i)
+	if p < 0 {
 		return true
 	}
-	switch ft.toks[i-1].tok {
+	switch ft.toks[p].tok {
 	case token.SEMICOLON, token.LBRACE, token.RBRACE:
 		return true
 	}
@@ -798,15 +947,19 @@ func (ft *flatTree) sourceLine(t ttok) string {
 	if sg.src < 0 {
 		return "unknown: no source position"
 	}
+	src := sg.srcOf
 	p := sg.src + (t.off - sg.start)
-	lo := strings.LastIndexByte(ft.src[:p], '\n') + 1
-	hi := strings.IndexByte(ft.src[p:], '\n')
+	if p > len(src) {
+		return "unknown: no source position"
+	}
+	lo := strings.LastIndexByte(src[:p], '\n') + 1
+	hi := strings.IndexByte(src[p:], '\n')
 	if hi < 0 {
-		hi = len(ft.src)
+		hi = len(src)
 	} else {
 		hi += p
 	}
-	return strings.TrimSpace(ft.src[lo:hi])
+	return strings.TrimSpace(src[lo:hi])
 }
 
 type tmplSet map[string]map[string]*flatTree // dir -> template name -> tree
@@ -853,6 +1006,47 @@ func (ft *flatTree) identUses(set tmplSet, lo, hi int, base, prefix []string, va
 			sub.identUses(set, 0, len(sub.toks), nil, g, vars, seen, out, unk)
 		}
 	}
+}
+
+// mergeComplementary: a mark present under both branches of the same template
+// conditional (`... ; if P` and `... ; unless P`, or with / without) is present
+// whenever the conditional is reached: the two are replaced by one mark under the
+// common guards (at the place of the first), repeatedly.
+func mergeComplementary(in []mark) []mark {
+	out := append([]mark(nil), in...)
+	compl := func(a, b string) bool {
+		for _, p := range [][2]string{{"if ", "unless "}, {"with ", "without "}} {
+			if strings.HasPrefix(a, p[0]) && strings.HasPrefix(b, p[1]) && a[len(p[0]):] == b[len(p[1]):] {
+				return true
+			}
+		}
+		return false
+	}
+	for again := true; again; {
+		again = false
+	search:
+		for i := range out {
+			for j := range out {
+				a, b := out[i], out[j]
+				if i == j || a.name != b.name || len(a.guards) != len(b.guards) || len(a.guards) == 0 {
+					continue
+				}
+				n := len(a.guards) - 1
+				if strings.Join(a.guards[:n], "\x00") != strings.Join(b.guards[:n], "\x00") || !compl(a.guards[n], b.guards[n]) {
+					continue
+				}
+				lo, hi := i, j
+				if lo > hi {
+					lo, hi = hi, lo
+				}
+				out[lo] = mark{guards: append([]string{}, a.guards[:n]...), name: a.name}
+				out = append(out[:hi], out[hi+1:]...)
+				again = true
+				break search
+			}
+		}
+	}
+	return dedupMarks(out)
 }
 
 func markKey(m mark) string { return strings.Join(m.guards, "\x00") + "\x01" + m.name }
@@ -934,20 +1128,52 @@ func (ft *flatTree) loopFacts(set tmplSet, sf *structFacts) {
 		unk("no job closure in the loop body")
 		return
 	}
+	// copies: `x := x`, or pairwise in a tuple `x, y := x, y`
 	var copies []mark
 	for k := lb + 1; k < elem.funcTok; k++ {
-		if ft.fnOf[k] == -1 && ft.stmtStart(k) && ft.is(k, token.IDENT) && ft.is(k+1, token.DEFINE) && ft.is(k+2, token.IDENT) &&
-			ft.toks[k].lit == ft.toks[k+2].lit && ft.is(k+3, token.SEMICOLON) {
-			g := relGuards(ft.toks[k].guards, base)
+		if ft.fnOf[k] != -1 || !ft.stmtStart(k) || !ft.is(k, token.IDENT) {
+			continue
+		}
+		// a1, ..., an := b1, ..., bn ;
+		var lhs, rhs []int
+		j := k
+		for ft.is(j, token.IDENT) {
+			lhs = append(lhs, j)
+			if !ft.is(ft.succ(j), token.COMMA) {
+				break
+			}
+			j = ft.succ(ft.succ(j))
+		}
+		def := ft.succ(j)
+		if !ft.is(def, token.DEFINE) {
+			continue
+		}
+		j = ft.succ(def)
+		for ft.is(j, token.IDENT) {
+			rhs = append(rhs, j)
+			if !ft.is(ft.succ(j), token.COMMA) {
+				break
+			}
+			j = ft.succ(ft.succ(j))
+		}
+		if len(lhs) != len(rhs) || !ft.is(ft.succ(j), token.SEMICOLON) {
+			continue
+		}
+		for i := range lhs {
+			if ft.toks[lhs[i]].lit != ft.toks[rhs[i]].lit || ft.toks[lhs[i]].lit == "_" {
+				continue
+			}
+			g := relGuards(ft.toks[lhs[i]].guards, base)
 			// the copy is as conditional as its most conditional token
-			for _, kk := range []int{k + 1, k + 2} {
+			for _, kk := range []int{def, rhs[i]} {
 				if g2 := relGuards(ft.toks[kk].guards, base); len(g2) > len(g) {
 					g = g2
 				}
 			}
-			copies = append(copies, mark{guards: g, name: ft.toks[k].lit})
+			copies = append(copies, mark{guards: g, name: ft.toks[lhs[i]].lit})
 		}
 	}
+	copies = mergeComplementary(copies)
 	var uses []mark
 	var unks []string
 	ft.identUses(set, elem.lbrace+1, elem.rbrace, base, nil, vars, map[string]bool{}, &uses, &unks)
@@ -1041,6 +1267,30 @@ func (ft *flatTree) loopFacts(set tmplSet, sf *structFacts) {
 // Driver
 // ---------------------------------------------------------------------------
 
+// walkIncludes calls f with the name of every {{template}} include of a tree.
+func walkIncludes(n parse.Node, f func(string)) {
+	switch x := n.(type) {
+	case *parse.ListNode:
+		if x == nil {
+			return
+		}
+		for _, c := range x.Nodes {
+			walkIncludes(c, f)
+		}
+	case *parse.TemplateNode:
+		f(x.Name)
+	case *parse.IfNode:
+		walkIncludes(x.List, f)
+		walkIncludes(x.ElseList, f)
+	case *parse.WithNode:
+		walkIncludes(x.List, f)
+		walkIncludes(x.ElseList, f)
+	case *parse.RangeNode:
+		walkIncludes(x.List, f)
+		walkIncludes(x.ElseList, f)
+	}
+}
+
 var reUndefinedFunc = regexp.MustCompile(`function "([^"]+)" not defined`)
 
 // parseLenient parses a template file; functions the template calls are
@@ -1089,8 +1339,9 @@ func (r *repo) scanTemplateStructure(sf *structFacts) {
 	for _, n := range builtinFuncNames {
 		funcs[n] = true
 	}
-	set := tmplSet{}
-	var all []*flatTree
+	// 1. parse every file; the trees of a set, by directory and name
+	defs := tdefSet{}
+	var order []*tdef
 	for _, f := range files {
 		bs, err := r.readFile(f.rel)
 		if err != nil {
@@ -1113,25 +1364,89 @@ func (r *repo) scanTemplateStructure(sf *structFacts) {
 			if tr == nil || tr.Root == nil {
 				continue
 			}
-			ft := &flatTree{file: f.display, dir: f.dir, name: n, src: string(bs), ph: map[string]parse.Node{}}
-			if n != base {
-				ft.file = f.display + "{" + n + "}"
+			d := &tdef{file: f.display, dir: f.dir, name: n, isDefine: n != base, tree: tr, src: string(bs)}
+			if d.isDefine {
+				d.file = f.display + "{" + n + "}"
 			}
-			ft.walk(tr.Root, nil)
-			ft.tokenize()
-			if !ft.broken {
-				ft.findLits()
-				ft.findBase()
+			if defs[f.dir] == nil {
+				defs[f.dir] = map[string]*tdef{}
 			}
-			if set[f.dir] == nil {
-				set[f.dir] = map[string]*flatTree{}
+			if old := defs[f.dir][n]; old != nil {
+				sf.unknown = append(sf.unknown, pair{d.file, "unknown: template " + strconv.Quote(n) + " also defined in " + old.file})
 			}
-			if old := set[f.dir][n]; old != nil {
-				sf.unknown = append(sf.unknown, pair{ft.file, "unknown: template " + strconv.Quote(n) + " also defined in " + old.file})
-			}
-			set[f.dir][n] = ft
-			all = append(all, ft)
+			defs[f.dir][n] = d
+			order = append(order, d)
 		}
+	}
+	flatten := func(d *tdef, expand bool) *flatTree {
+		ft := &flatTree{file: d.file, dir: d.dir, name: d.name, src: d.src, curSrc: d.src, def: d, ph: map[string]parse.Node{}}
+		if expand {
+			ft.defs = defs
+		}
+		ft.walk(d.tree.Root, nil)
+		ft.tokenize()
+		if !ft.broken {
+			ft.findLits()
+			ft.findBase()
+		}
+		return ft
+	}
+	// 2. which defines are structural: by their own text, then through includes
+	for _, d := range order {
+		walkIncludes(d.tree.Root, func(name string) { d.includes = append(d.includes, name) })
+		if !d.isDefine {
+			continue
+		}
+		ft := flatten(d, false)
+		if ft.broken {
+			continue // reported below, on its own
+		}
+		d.structural = len(ft.lits) > 0
+		for i, t := range ft.toks {
+			if t.tok == token.DEFER || t.tok == token.GO ||
+				(ft.isIdent(i, "recover") && ft.is(i+1, token.LPAREN) && !ft.is(i-1, token.PERIOD)) {
+				d.structural = true
+			}
+		}
+	}
+	for changed := true; changed; {
+		changed = false
+		for _, d := range order {
+			if !d.isDefine || d.structural {
+				continue
+			}
+			for _, n := range d.includes {
+				if sub := defs.resolve(d.dir, n); sub != nil && sub.isDefine && sub.structural {
+					d.structural, changed = true, true
+				}
+			}
+		}
+	}
+	// 3. flatten, structural defines expanded in place
+	set := tmplSet{}
+	var all []*flatTree
+	for _, d := range order {
+		ft := flatten(d, true)
+		if set[d.dir] == nil {
+			set[d.dir] = map[string]*flatTree{}
+		}
+		set[d.dir][d.name] = ft
+		all = append(all, ft)
+	}
+	// a structural define that was expanded somewhere is accounted for at every
+	// place it is included in; one that is included nowhere is reported on its own
+	{
+		var kept []*flatTree
+		for _, ft := range all {
+			if ft.def.isDefine && ft.def.structural && ft.def.used {
+				for _, u := range ft.unknown {
+					sf.unknown = append(sf.unknown, pair{ft.file, u})
+				}
+				continue
+			}
+			kept = append(kept, ft)
+		}
+		all = kept
 	}
 
 	isRoot := map[string]bool{"flow/flow.go.tmpl": true, "parallel/parallel.go.tmpl": true, "modifier/flow.go.tmpl": true}
